@@ -49,7 +49,7 @@ def run(tier):
             V.machinery_error("CompilerState spec run failed: " + out[-600:])
         # longer histories: seeded random walks over the same alphabet
         alphabet = sorted({h for hh in hists for h in hh})
-        extra = [[rng.choice(alphabet) for _ in range(rng.randint(3, 6))] for _ in range(150 if tier == "quick" else 3000)]
+        extra = [[rng.choice(alphabet) for _ in range(rng.randint(3, 6))] for _ in range(150 if tier == "quick" else 2000)]
         allh = hists + extra
         # reference outcomes: every design alone in a fresh interpreter under hash seed 0
         r0 = replay((0, [], None, 0, scratch))
@@ -64,8 +64,8 @@ def run(tier):
         if ref:
             jobs = []
             for seed in seeds:
-                hs = allh if seed == 0 else rng.sample(allh, min(len(allh), 120 if tier == "quick" else 1500))
-                jobs += [(i, s, ref, seed, scratch) for i, s in enumerate(vlib.shard(hs, 6))]
+                hs = allh if seed == 0 else rng.sample(allh, min(len(allh), 120 if tier == "quick" else 1000))
+                jobs += [(i, s, ref, seed, scratch) for i, s in enumerate(vlib.shard(hs, 6 if tier == "quick" or seed != 0 else 16))]
             with cf.ThreadPoolExecutor(vlib.NCPU) as ex:
                 for (i, s, _, seed, _), r in zip(jobs, ex.map(replay, jobs)):
                     if "error" in r:
